@@ -39,10 +39,14 @@ def run_property(pid: str, tier: str, repo_root: str, only: str | None = None) -
     rc = chk.finish()
     if tier == 'thorough' and rc == 0 and not os.environ.get('VERIF_NO_SELFTEST'):
         # (a) sensitivity of the checker: hand-written breaking variants / benign twins and the seeded changes
-        from selftest import workbench, automutate
+        from selftest import workbench, automutate, twins
         jobs = int(os.environ.get('VERIF_JOBS', '16'))
         vs = workbench.catalogue(pid)
         rc2 = workbench.run(vs, jobs, quiet=True)
+        # automatic benign twins of the anchored functions (renamed locals, flipped comparisons, logging, x = x + y, swapped if/else, named returns)
+        n_false = twins.run([pid], jobs)
+        if n_false:
+            rc2 = 2
         # (b) mutation sweep over the functions the property is anchored in
         seed = int(os.environ.get('VERIF_SEED', '0') or 0)
         sw = automutate.sweep(pid, jobs=jobs, limit=int(os.environ.get('VERIF_SWEEP_LIMIT', '400')), seed=seed)
@@ -84,8 +88,9 @@ def main(argv=None) -> int:
     a = ap.parse_args(argv)
     what = a.what.upper() if a.what.lower() not in ('all', 'selftest') else a.what.lower()
     if what == 'selftest':
-        from selftest import workbench
-        return workbench.run_all(jobs=a.jobs)
+        from selftest import workbench, twins
+        rc = workbench.run_all(jobs=a.jobs)
+        return 2 if (twins.run(None, a.jobs) or rc) else 0
     if what == 'all':
         worst = 0
         for pid in PROPS:
